@@ -73,7 +73,7 @@ Section Spec.
     | None => true
     | Some (r_raised, r_dest, r_part) =>
         if negb overwrite && present dest1 then r_raised && ofile_eqb r_dest dest1
-        else if invalid_args then r_raised && ofile_eqb r_dest dest1 && (negb r_part || present part1)
+        else if invalid_args then r_raised && ofile_eqb r_dest dest1 && (negb r_part || present part1 || negb rm_part_on_exc)
         else if present part1 && negb overwrite_part then true
         else negb r_raised && match r_dest with Some (c, _) => content_eqb c new | None => false end && negb r_part
     end.
@@ -85,7 +85,9 @@ Section Spec.
 
   (* never a silent failure: either the caller got an exception and nothing changed,
      or the save is complete *)
-  Definition c05_spec : bool :=
+  Definition c05_core : bool :=
     (if raised then failed_ok else completed_ok && negb invalid_args) &&
-    stale_part_respected && refusal_ok && noclobber_ok && others_unchanged.
+    stale_part_respected && refusal_ok && others_unchanged.
+
+  Definition c05_spec : bool := c05_core && noclobber_ok.
 End Spec.
